@@ -48,3 +48,27 @@ package lamport
 //@   ensures [no-error] result == nil
 //@   loop 1
 //@     invariant mc.counter == old(mc.counter)
+
+// ---- the persisted clock (C05, C06) --------------------------------------------------------------------------
+// fileValue: the value in the clock's file - what a process that opens the repository later starts from. A
+// persisted clock writes its counter through after every successful Increment and Witness, so the file is never
+// behind a time this process has handed out or seen.
+//@ ghost var fileValue map[*PersistedClock]uint64
+// (Write renders the counter in decimal and replaces the file's content with it: assumed, go-billy's WriteFile)
+//@ func (*PersistedClock).Write
+//@   trusted
+//@   modifies fileValue
+//@   ensures [written] result == nil ==> fileValue == update(old(fileValue), pc, pc.MemClock.counter)
+//@   ensures [error]   result != nil ==> fileValue == old(fileValue)
+//@ func (*PersistedClock).Increment
+//@   props C05 C06
+//@   requires pc != nil && pc.MemClock != nil
+//@   modifies pc.MemClock.counter, fileValue
+//@   ensures [handed-out-is-persisted] result1 == nil ==> fileValue[pc] == pc.MemClock.counter && result == pc.MemClock.counter && result > old(pc.MemClock.counter)
+//@   ensures [monotone] pc.MemClock.counter >= old(pc.MemClock.counter)
+//@ func (*PersistedClock).Witness
+//@   props C05 C06
+//@   requires pc != nil && pc.MemClock != nil
+//@   modifies pc.MemClock.counter, fileValue
+//@   ensures [witnessed-is-persisted] result == nil ==> fileValue[pc] == pc.MemClock.counter && pc.MemClock.counter >= time
+//@   ensures [monotone] pc.MemClock.counter >= old(pc.MemClock.counter)
